@@ -1,6 +1,6 @@
 (* Model/C07Run.v - case type and checker evaluated on harness-generated cases (C07).
    Every observation was made on the REAL client (child process of harness/c07). *)
-From ReqV Require Export Lib.Bytes Model.Decode Model.BodyStages Model.H1Resp Model.H1Limits Model.AltSvc.
+From ReqV Require Export Lib.Bytes Model.Decode Model.BodyStages Model.H1Resp Model.H1Limits Model.AltSvc Model.H2Info.
 From ReqV Require Model.Digest Model.H3Frame Model.H3Limits Gen.C07Consts.
 
 (* run-length piece for big hostile streams: [repN n b] = n copies of byte b *)
@@ -23,7 +23,13 @@ Inductive c07_case :=
 | ChallengeCase (input : bytes) (obs_ok : bool)
 (* bytes served on an HTTP/3 response stream to the real client (default control stream);
    [max] = MaxResponseHeaderBytes, [q] = what quic-go's QPACK decoder makes of each field section *)
-| H3Case (max : N) (q : H3Limits.qoracle) (stream : bytes) (obs : h1obs).
+| H3Case (max : N) (q : H3Limits.qoracle) (stream : bytes) (obs : h1obs)
+(* HTTP/2: the :status values of the HEADERS blocks served on the stream, in order (none with END_STREAM) *)
+| H2InfoCase (codes : list Z) (obs : h1obs)
+(* a digest challenge through parseChallenge + authorize: 0 = not parsed, 1 = algorithm refused, 2 = algorithm accepted *)
+| DigestAlgCase (chal : bytes) (obs : N)
+(* the header map of an accepted head: number of distinct (canonical) names and of values *)
+| HdrCase (meth : bytes) (bufsize : N) (stream : bytes) (nkeys nvals : N).
 
 Definition perr_eqb (a b : perr) : bool :=
   match a, b with
@@ -85,6 +91,26 @@ Definition c07_check (c : c07_case) : bool :=
       list_eqb entry_eqb es' es && perr_eqb e' e
   | ChallengeCase v ok =>
       Bool.eqb (match Digest.parse_challenge v with inl _ => true | inr _ => false end) ok
+  | H2InfoCase codes o =>
+      match h2_info_run false istate0 (map (fun c => EvHeaders c false) codes), o with
+      | RFinal code _, OResp code' _ _ => (code =? code')%Z
+      | RErr, OErr | ROpen _, OErr => true
+      | _, _ => false
+      end
+  | DigestAlgCase chal o =>
+      match Digest.parse_challenge chal with
+      | inr _ => (o =? 0)%N
+      | inl c => match Digest.lookup_alg (Digest.c_algorithm c) with
+                 | None => (o =? 1)%N
+                 | Some _ => (o =? 2)%N
+                 end
+      end
+  | HdrCase m bsz s nk nv =>
+      match read_response_head m (N.to_nat bsz) s with
+      | inr (r, _) => (N.of_nat (length (r_header r)) =? nk)%N &&
+                      (N.of_nat (fold_left (fun a kv => (a + length (snd kv))%nat) (r_header r) 0%nat) =? nv)%N
+      | inl _ => false
+      end
   | H3Case max q s o =>
       match H3Limits.h3_read_call max q s, o with
       | H3Limits.H3Resp _ code _, OResp code' _ _ => (code =? code')%Z
